@@ -4,6 +4,7 @@
 CONFIGS = {
     "plain":      ("plain", []),
     "asan":       ("asan", []),
+    "fine":       ("fine", []),
     "o0":         ("o0", []),
     "o2":         ("o2", []),
     "o3":         ("o3", []),
@@ -239,7 +240,9 @@ PROPS = {
                 "thread runs 1-4 workloads (container work, allocation-heavy work causing collections in its own collector, nested try/catch, "
                 "thread-local set/get/rem under shared key names, lock / trylock / with sections around a non-atomic counter and an in-section "
                 "flag); the schedule is either a handful of seeded pre-emption points (PCT style) or chaos (switch with probability 1/d at every "
-                "yield point); join order is seeded. Oracles: every workload digest equals the digest of the same workload run alone; no object "
+                "yield point); join order is seeded. A further stage runs the 'fine' build, in which /repo is compiled with -fsanitize=thread "
+                "and the instrumentation calls are bound to the scheduler instead of the TSan runtime, so every load/store of non-stack memory "
+                "inside the library is a scheduling point. Oracles: every workload digest equals the digest of the same workload run alone; no object "
                 "finalised by another thread's collector; handlers see exactly the exception their own thread threw; TLS values private; "
                 "immediately after join the thread has finished and its result is readable; critical sections never overlap, no lost update; "
                 "no deadlock; each thread's teardown finalises all of its objects. The exceptions engine adds one try/catch tree per thread. "
@@ -249,6 +252,9 @@ PROPS = {
             {"scen": "threads", "env": {}, "runs": 3000 if tier == "quick" else 250_000, "configs": ["plain"], "timeout": 20, "chunk": 20},
             {"scen": "threads", "env": {}, "runs": 500 if tier == "quick" else 30_000, "configs": ["asan"], "first": 10_000_000, "timeout": 30, "chunk": 10},
             {"scen": "exc", "env": {"threads": 3}, "runs": 1500 if tier == "quick" else 300_000, "configs": ["plain"], "first": 20_000_000, "timeout": 6},
+            # memory-access granularity: /repo compiled with -fsanitize=thread, every non-stack load/store is a scheduling point
+            {"scen": "threads", "env": {}, "runs": 1500 if tier == "quick" else 120_000, "configs": ["fine"], "first": 30_000_000, "timeout": 30, "chunk": 20},
+            {"scen": "exc", "env": {"threads": 3}, "runs": 1500 if tier == "quick" else 150_000, "configs": ["fine"], "first": 40_000_000, "timeout": 10},
         ],
         "rare_probes": ["thr.join_before_finish", "thr.join_after_finish", "thr.trylock_spins", "thr.alloc_threads", "sched.lib_switches", "sched.switches", "exc.thread_programs"],
         "assumptions": ["interleaving granularity is the yield point under sequential consistency; weak-memory effects are not simulated",
@@ -269,6 +275,7 @@ PROPS = {
         "stages": lambda tier: [
             {"scen": "dispatch", "env": {}, "runs": 2500 if tier == "quick" else 50_000, "configs": ["plain"], "timeout": 20, "chunk": 20},
             {"scen": "dispatch", "env": {}, "runs": 400 if tier == "quick" else 6_000, "configs": ["asan"], "first": 10_000_000, "timeout": 40, "chunk": 10},
+            {"scen": "dispatch", "env": {}, "runs": 600 if tier == "quick" else 15_000, "configs": ["fine"], "first": 20_000_000, "timeout": 40, "chunk": 10},
         ],
         "rare_probes": ["sched.sw_in_cache_fill", "sched.sw_in_class_memo", "sched.sw_in_lazy_header", "disp.concurrent_sweeps", "disp.empty_member",
                         "disp.missing_class", "disp.cooled", "disp.casts", "disp.max_instances", "disp.max_threads"],
